@@ -35,6 +35,9 @@ def run(ctx):
                    "nothing is inherited from the previous packet", min_sites=4)
     ctx.rule("PRIO", "no dead driver", min_sites=4)
 
+    from ..rules_stream import packetfifo_geometry
+    packetfifo_geometry(ctx, "P2")
+
     # ---- Packetizer / Depacketizer
     for cls in ("Packetizer", "Depacketizer"):
         fx = fx_of(ctx, PACKET, cls)
